@@ -2,6 +2,7 @@ package sched
 
 import (
 	"fmt"
+	"os"
 	"strconv"
 	"strings"
 
@@ -67,7 +68,7 @@ func (r *run) monitor(events []string, st *scheduler.VerifState, dump string) {
 		}
 		r.syncActive = map[string]bool{}
 		for wk, cl := range r.w.syncs {
-			if !cl.done {
+			if _, notYet := r.w.delayed[wk]; !cl.done && !notYet {
 				r.syncActive[wk] = true
 			}
 		}
@@ -169,6 +170,12 @@ func (r *run) monitor(events []string, st *scheduler.VerifState, dump string) {
 		case "sync":
 			// the worker's Synchronize call returned now (recorded after this segment's checks)
 			newRet[kv["w"]] = r.w.clk.now
+			if os.Getenv("SCHED_DEBUG") != "" {
+				fmt.Fprintf(os.Stderr, "DBG sync ev=%q now=%d released=%v just=%v delayed=%v\n", ev, r.w.clk.now, r.released, r.justReleased, r.w.delayed)
+			}
+			if d, ok := r.justReleased[kv["w"]]; ok {
+				newRet[kv["w"]] = d.at // the scheduler saw the time this call had read
+			}
 			if len(f) > 2 && f[2] == "exec" {
 				wk := kv["w"]
 				r.checkNotDrained(wk, st)
@@ -210,7 +217,11 @@ func (r *run) monitor(events []string, st *scheduler.VerifState, dump string) {
 			r.failf("violation", timeoutProp(), "C06.worker_timeout", "worker %s disappeared while executing the task of operation %s, but the task is now in stage %s (code %s) instead of having failed with UNAVAILABLE", f[1], t, tl["st"], tl["code"])
 		}
 	}
-	if !strings.Contains(r.primary, " c:") {
+	reportedLate := false
+	for _, d := range r.justReleased {
+		reportedLate = reportedLate || strings.HasPrefix(d.report, "c:")
+	}
+	if !strings.Contains(r.primary, " c:") && !reportedLate && !r.released {
 		for _, ev := range events {
 			if strings.HasPrefix(ev, "an learner") && strings.Contains(ev, " failed ") {
 				r.failf("violation", "C07", "C07.learner_linear (terminal call matches what happened)", "the learner was told the action failed (%s) in a segment in which no worker reported a result (%s)", ev, r.primary)
@@ -301,7 +312,7 @@ func (r *run) monitor(events []string, st *scheduler.VerifState, dump string) {
 		}
 	}
 	// C05: TerminateWorkers marks every registered worker that matches the pattern, whatever it is doing
-	if len(pf) == 4 && pf[0] == "term" {
+	if len(pf) == 4 && pf[0] == "term" && !r.released {
 		pat := patternMap(pf[3])
 		for i := range st.SizeClassQueues {
 			for _, wk := range st.SizeClassQueues[i].Workers {
